@@ -291,7 +291,7 @@ Qed.
 Theorem api_render_same_lines n t1 t2 o s :
   split_lines (blank_reserved t1) = split_lines (blank_reserved t2) -> api_render n t1 o s = api_render n t2 o s.
 Proof.
-  intros H. unfold api_render, bind, get.
+  intros H. unfold api_render, bind, gets.
   destruct (s_mode s =? -1)%Z; cbn [modify ret];
     (destruct (updateFrom o _) as [[[] s2]| |]; [apply doc_render_same_lines; exact H|reflexivity|reflexivity]).
 Qed.
